@@ -1,7 +1,11 @@
 package main
 
 import (
+	"encoding/json"
 	"fmt"
+	"os"
+	"path/filepath"
+	"sort"
 	"go/token"
 	"go/types"
 	"strings"
@@ -259,6 +263,65 @@ func runC14(c *Ctx) {
 	}
 	c14Required(c)
 	c14Exhaustion(c)
+	c14Schema(c)
+}
+
+// c14Schema: the published JSON schema of a target agrees with the Target type and the targeter's required-field checks.
+func c14Schema(c *Ctx) {
+	const rule = "lib/target.schema.json (the documented JSON target grammar) lists exactly Target's json keys as properties, requires exactly the fields the JSON targeter rejects when empty (method, url), marks body as base64 and header as an object of string arrays, and allows no additional properties"
+	key := "schema-agreement:lib/target.schema.json"
+	b, err := os.ReadFile(filepath.Join(c.P.Dir, "lib", "target.schema.json"))
+	if err != nil {
+		c.Undecided(key, rule, "schema file not found")
+		return
+	}
+	var doc struct {
+		Definitions map[string]struct {
+			Required             []string                   `json:"required"`
+			Properties           map[string]json.RawMessage `json:"properties"`
+			AdditionalProperties *bool                      `json:"additionalProperties"`
+		} `json:"definitions"`
+	}
+	if err := json.Unmarshal(b, &doc); err != nil {
+		c.Undecided(key, rule, "schema does not parse: "+err.Error())
+		return
+	}
+	def, ok := doc.Definitions["Target"]
+	if !ok {
+		c.Undecided(key, rule, "no Target definition in the schema")
+		return
+	}
+	tgt := c.P.Named("lib", "Target")
+	tags, _, order := structJSONTags(tgt)
+	var problems []string
+	want := map[string]bool{}
+	for _, f := range order {
+		want[tags[f]] = true
+		if _, ok := def.Properties[tags[f]]; !ok {
+			problems = append(problems, "schema lacks property "+tags[f])
+		}
+	}
+	for k := range def.Properties {
+		if !want[k] {
+			problems = append(problems, "schema has property "+k+" that Target does not have")
+		}
+	}
+	req := append([]string{}, def.Required...)
+	sort.Strings(req)
+	if strings.Join(req, ",") != "method,url" {
+		problems = append(problems, "schema requires "+strings.Join(req, ",")+"; the targeter requires method,url")
+	}
+	if body, ok := def.Properties["body"]; ok && !strings.Contains(string(body), "base64") {
+		problems = append(problems, "schema does not mark body as base64")
+	}
+	if hdr, ok := def.Properties["header"]; ok && !(strings.Contains(string(hdr), "\"array\"") && strings.Contains(string(hdr), "\"string\"")) {
+		problems = append(problems, "schema does not describe header as arrays of strings")
+	}
+	if def.AdditionalProperties == nil || *def.AdditionalProperties {
+		problems = append(problems, "schema allows additional properties but the decoder silently skips them")
+	}
+	sort.Strings(problems)
+	c.Check(len(problems) == 0, key, rule, fmt.Sprintf("%d properties agree; required method,url", len(def.Properties)), strings.Join(problems, "; "), "lib/target.schema.json")
 }
 
 // c14Required: the JSON targeter rejects a target without method or url before filling the caller's target.
